@@ -612,7 +612,14 @@ func (e *gExec) collect(objType string, sel []*gSelection, out *[]*gCollected, v
 
 func copyPath(p []any) []any { return append([]any{}, p...) }
 
+// gOnObject, when set, is told the concrete type of every object the executor renders and its
+// response path (used to learn the runtime types at abstract positions from a reference execution).
+var gOnObject func(path []any, typ string)
+
 func (e *gExec) selectionSet(obj *gObj, sel []*gSelection, path []any) (*gOrdered, error) {
+	if gOnObject != nil {
+		gOnObject(path, obj.Type)
+	}
 	var groups []*gCollected
 	e.collect(obj.Type, sel, &groups, map[string]bool{})
 	out := &gOrdered{Vals: map[string]any{}}
